@@ -203,7 +203,11 @@ Lemma item_cmp_SS a b : item_cmp (IStr a) (IStr b) = str_cmp (comparable_qualifi
 Proof. reflexivity. Qed.
 Lemma cmp_null_I n : cmp_null (IInt n) = if N.eqb n 0 then 0 else 1. Proof. reflexivity. Qed.
 Lemma cmp_null_S s : cmp_null (IStr s) = str_cmp (comparable_qualifier s) release_version_index. Proof. reflexivity. Qed.
-Lemma cmp_null_L x l : cmp_null (IList (x :: l)) = cmp_null x. Proof. reflexivity. Qed.
+Lemma cmp_null_L x l : cmp_null x <> 0 -> cmp_null (IList (x :: l)) = cmp_null x.
+Proof.
+  intros H. change (cmp_null (IList (x :: l))) with (if cmp_null x =? 0 then cmp_null (IList l) else cmp_null x).
+  destruct (Z.eqb_spec (cmp_null x) 0); [contradiction | reflexivity].
+Qed.
 
 Lemma cmpN3_Z a b : 0 <= a -> 0 <= b -> cmpN3 (Z.to_N a) (Z.to_N b) = cmpZ a b.
 Proof. intros Ha Hb. unfold cmpN3, cmpZ. rewrite <- (Z2N.inj_compare a b) by auto. reflexivity. Qed.
@@ -304,30 +308,34 @@ Proof. intros S. simpl. rewrite S. reflexivity. Qed.
 Lemma cont_dot e t : me_sep e = 46%N -> cont (e :: t) = item_of e :: cont t.
 Proof. intros S. simpl. rewrite S. reflexivity. Qed.
 
+(* a non-null qualifier against the padding *)
+Lemma q_nonnull_kcmp f : td0 f -> isQ f ->
+  kcmp (key_of f) key_pad <> 0 /\ kcmp key_pad (key_of f) <> 0 /\ - kcmp (key_of f) key_pad = kcmp key_pad (key_of f).
+Proof.
+  intros Tf Qf. pose proof (td0_Q f Tf Qf) as NQ.
+  rewrite (key_of_Q f Qf), !kcmp_unfold. unfold key_pad.
+  unfold k_class, k_ord, k_str, k_int; simpl fst; simpl snd. rewrite (cmpZ_refl 0). simpl (0 =? 0). cbv iota.
+  rewrite empty_q.
+  destruct (Z.eqb_spec (cmpZ (qorder f) (-2)) 0) as [E|E]; [apply cmpZ_eq0 in E; contradiction|].
+  destruct (Z.eqb_spec (cmpZ (-2) (qorder f)) 0) as [E'|E']; [apply cmpZ_eq0 in E'; congruence|].
+  repeat split; auto. apply cmpZ_antisym.
+Qed.
+
 (* a tail element against the end of the other list: decided at once *)
 Lemma null_r_td0 f t : td0 f ->
   nulls_r (cont (f :: t)) = kcmp key_pad (key_of f) /\ kcmp key_pad (key_of f) <> 0.
 Proof.
   intros Tf. destruct (td_cases f (proj1 Tf)) as [[Sf [Qf If]]|[Nf Sf]].
-  - rewrite (cont_dash f t Sf). cbn [nulls_r]. rewrite cmp_null_L, (q_null f Qf).
-    assert (A : - kcmp (key_of f) key_pad = kcmp key_pad (key_of f)).
-    { rewrite (key_of_Q f Qf), !kcmp_unfold. unfold key_pad.
-      unfold k_class, k_ord, k_str, k_int; simpl fst; simpl snd. rewrite (cmpZ_refl 0). simpl (0 =? 0). cbv iota.
-      rewrite empty_q. pose proof (td0_Q f Tf Qf) as NQ.
-      destruct (Z.eqb_spec (cmpZ (qorder f) (-2)) 0) as [E|E]; [apply cmpZ_eq0 in E; contradiction|].
-      destruct (Z.eqb_spec (cmpZ (-2) (qorder f)) 0) as [E'|E']; [apply cmpZ_eq0 in E'; congruence|].
-      apply cmpZ_antisym. }
-    rewrite A.
-    assert (NZ : kcmp key_pad (key_of f) <> 0).
-    { rewrite (key_of_Q f Qf), kcmp_unfold. unfold key_pad.
-      unfold k_class, k_ord, k_str, k_int; simpl fst; simpl snd. rewrite (cmpZ_refl 0). simpl (0 =? 0). cbv iota.
-      rewrite empty_q. pose proof (td0_Q f Tf Qf) as NQ.
-      destruct (Z.eqb_spec (cmpZ (-2) (qorder f)) 0) as [E'|E']; [apply cmpZ_eq0 in E'; congruence | exact E']. }
+  - destruct (q_nonnull_kcmp f Tf Qf) as [N1 [N2 A]].
+    rewrite (cont_dash f t Sf). cbn [nulls_r].
+    rewrite cmp_null_L by (rewrite (q_null f Qf); exact N1). rewrite (q_null f Qf), A.
     split; auto. destruct (Z.eqb_spec (kcmp key_pad (key_of f)) 0); [contradiction | reflexivity].
   - pose proof (td0_N f Tf Nf) as P. rewrite (kcmp_padN f Nf). split; [|discriminate].
     assert (Z : N.eqb (Z.to_N (me_int f)) 0 = false) by (apply N.eqb_neq; lia).
+    assert (NZ : cmp_null (item_of f) <> 0) by (rewrite (item_of_N f Nf), cmp_null_I, Z; discriminate).
     destruct Sf as [Sf|[Sf _]].
-    + rewrite (cont_dash f t Sf). cbn [nulls_r]. rewrite cmp_null_L, (item_of_N f Nf), cmp_null_I, Z. reflexivity.
+    + rewrite (cont_dash f t Sf). cbn [nulls_r]. rewrite cmp_null_L by exact NZ.
+      rewrite (item_of_N f Nf), cmp_null_I, Z. reflexivity.
     + rewrite (cont_dot f t Sf). cbn [nulls_r]. rewrite (item_of_N f Nf), cmp_null_I, Z. reflexivity.
 Qed.
 
@@ -335,17 +343,16 @@ Lemma null_l_td0 e t : td0 e ->
   nulls_l (cont (e :: t)) = kcmp (key_of e) key_pad /\ kcmp (key_of e) key_pad <> 0.
 Proof.
   intros Te. destruct (td_cases e (proj1 Te)) as [[Se [Qe Ie]]|[Ne Se]].
-  - rewrite (cont_dash e t Se). cbn [nulls_l]. rewrite cmp_null_L, (q_null e Qe).
-    assert (NZ : kcmp (key_of e) key_pad <> 0).
-    { rewrite (key_of_Q e Qe), kcmp_unfold. unfold key_pad.
-      unfold k_class, k_ord, k_str, k_int; simpl fst; simpl snd. rewrite (cmpZ_refl 0). simpl (0 =? 0). cbv iota.
-      rewrite empty_q. pose proof (td0_Q e Te Qe) as NQ.
-      destruct (Z.eqb_spec (cmpZ (qorder e) (-2)) 0) as [E'|E']; [apply cmpZ_eq0 in E'; congruence | exact E']. }
+  - destruct (q_nonnull_kcmp e Te Qe) as [N1 [N2 A]].
+    rewrite (cont_dash e t Se). cbn [nulls_l].
+    rewrite cmp_null_L by (rewrite (q_null e Qe); exact N1). rewrite (q_null e Qe).
     split; auto. destruct (Z.eqb_spec (kcmp (key_of e) key_pad) 0); [contradiction | reflexivity].
   - pose proof (td0_N e Te Ne) as P. rewrite (kcmp_Npad e Ne). split; [|discriminate].
     assert (Z : N.eqb (Z.to_N (me_int e)) 0 = false) by (apply N.eqb_neq; lia).
+    assert (NZ : cmp_null (item_of e) <> 0) by (rewrite (item_of_N e Ne), cmp_null_I, Z; discriminate).
     destruct Se as [Se|[Se _]].
-    + rewrite (cont_dash e t Se). cbn [nulls_l]. rewrite cmp_null_L, (item_of_N e Ne), cmp_null_I, Z. reflexivity.
+    + rewrite (cont_dash e t Se). cbn [nulls_l]. rewrite cmp_null_L by exact NZ.
+      rewrite (item_of_N e Ne), cmp_null_I, Z. reflexivity.
     + rewrite (cont_dot e t Se). cbn [nulls_l]. rewrite (item_of_N e Ne), cmp_null_I, Z. reflexivity.
 Qed.
 
@@ -554,3 +561,18 @@ Lemma maven_c02_nonvacuous :
   | _, _ => False
   end.
 Proof. vm_compute. repeat split; reflexivity. Qed.
+
+(* ------------------------------------------------------------------ qualifiers attached by '.' (F-C02-24) *)
+Definition s_1_SP : bytes := [49; 46; 83; 80]%N.                                              (* 1.SP *)
+Definition s_1_0_SP : bytes := [49; 46; 48; 45; 83; 80]%N.                                    (* 1.0-SP *)
+Definition s_2_0_jre2 : bytes := [50; 46; 48; 46; 106; 114; 101; 50]%N.                       (* 2.0.jre2 *)
+Definition s_2_0_0_jre2 : bytes := [50; 46; 48; 46; 48; 45; 106; 114; 101; 50]%N.             (* 2.0.0-jre2 *)
+Definition s_10_Beta7 : bytes := [49; 48; 46; 48; 46; 48; 46; 48; 46; 66; 101; 116; 97; 55]%N. (* 10.0.0.0.Beta7 *)
+Definition s_10_CR : bytes := [49; 48; 45; 67; 82]%N.                                         (* 10-CR *)
+
+(* the library's comparison (both variants of the zero test) against ComparableVersion 3.8.x *)
+Lemma maven_dotted_witness z :
+  (mvn_cmp_strings z s_1_SP s_1_0_SP = Some (-1) /\ mspec_compare s_1_SP s_1_0_SP = 0) /\
+  (mvn_cmp_strings z s_2_0_jre2 s_2_0_0_jre2 = Some 1 /\ mspec_compare s_2_0_jre2 s_2_0_0_jre2 = 0) /\
+  (mvn_cmp_strings z s_10_Beta7 s_10_CR = Some 1 /\ mspec_compare s_10_Beta7 s_10_CR = -1).
+Proof. destruct z; vm_compute; repeat split; reflexivity. Qed.
